@@ -27,6 +27,10 @@ CLAIMED = {
             "For each enumerated option cell z3 proves that every output entry equals the defining direct sum for ALL real image batches and "
             "filter banks; output shape and bilinearity are read off the symbolic result.",
             "Reals; option cells sampled (pairwise-covering core + seeded sample), shapes <=5 (d=2), <=4 (d=3); wrap-around only in TORUS mode as documented.", "4/C04"),
+    "C05": (JX, "typed enumeration of expression trees over the real GeometricImage methods; symbolic execution of each tree's jaxpr; z3 (QF_NRA) per tree and group element",
+            "For each enumerated well-typed expression tree (depth<=2, seeded depth 3) and each g, z3 proves E(g.leaves) = g.E(leaves) with the "
+            "DECLARED (k,parity) for ALL real leaf values; plus contraction-order and product-commutativity identities.",
+            "Reals; tiny images (2x2, 3x3, 2x2x2) - the operations are pixel-local except convolve_with (3x3 filters); trees sampled in the quick tier.", "4/C05"),
 }
 
 NOT_YET = {}
